@@ -14,11 +14,11 @@ MANIFEST = {
             "path yields the very value delivered (get), and writing a sentinel there and re-creating delivers the sentinel (put).",
     "note": "Script-module paths (prefix 1/2) are checked for shape (module and member names) only. A self-referential index "
             "(a[a.i]) satisfies 'get' but not 'put' by construction; such cases are reported separately if they occur.",
-    "technique": "Coq proof (l-value path shape theorems) + model/implementation text correspondence + get/put execution under node",
+    "technique": "Coq proof (the denoted path names the value read, for the access/operator/conditional fragment; non-assignable forms get no path; member-chain path text) + model/implementation text and denotation correspondence + get/put execution under node",
     "jsrt": True,
 }
 
-THEOREMS = []
+THEOREMS = ["C11_path_names_what_is_read", "C11_not_assignable_no_path", "C11_member_chain_path_text"]
 
 SENTINEL = "☃SENTINEL"
 
@@ -169,6 +169,46 @@ def paths_in_effect(res, tree, data, j, label, counter):
     return bad
 
 
+def path_denotation(res):
+    """the Coq denotation of the model: path (Model/LvPath.v, what C11_path_names_what_is_read speaks about) against the
+    path TEXT evaluated by node, and get: data at the evaluated path == value of the expression (node)"""
+    p = harness_run(["guardden", res.tier, res.seed], timeout=3000)
+    jobs = [json.loads(l) for l in p.stdout.decode("utf8").split("\n") if l]
+    jobs = jobs[::2]
+    model = modelrun(["path_den\t%s\t%s\t%s" % (j["esc"], j["sexp"], j["data_sexp"]) for j in jobs])
+    njobs, idx = [], []
+    for k, (j, m) in enumerate(zip(jobs, model)):
+        if m.startswith(("ERR", "EXC")):
+            raise Infra("path_den model failed: %s on %s" % (m, j["text"]))
+        if m == "SKIP":
+            continue
+        text, hoisted, den, val = m.split("|")
+        prog = "(() => { %s; return (%s) })()" % (dec(hoisted), dec(text))
+        njobs.append({"op": "eval", "id": k, "expr": prog, "data": j["data"]})
+        idx.append(k)
+    out = node_jobs(njobs, shards=12)
+    n = found = n_den = 0
+    for k, o in zip(idx, out):
+        j, m = jobs[k], model[k]
+        text, hoisted, den, val = m.split("|")
+        if o.get("skip") or o.get("error"):
+            continue
+        n += 1
+        if den.startswith("D"):
+            n_den += 1
+            want = [dec(x) for x in den[1:].split(";")] if len(den) > 1 else []
+            got = o.get("value")
+            got_keys = None
+            if isinstance(got, dict) and "$a" in got:
+                got_keys = [x if isinstance(x, str) else (str(x) if isinstance(x, int) and not isinstance(x, bool) else None) for x in got["$a"]]
+            if got_keys != want:
+                found += 1
+                if found <= 3:
+                    res.violation("denotation of the l-value path differs from the path text evaluated by node for {{ %s }}: model %r, node %r" % (
+                        j["text"], want, got), {"expr": j["text"], "data": j["data"], "path_text": dec(text)})
+    return n, n_den, found
+
+
 def effect_stage(res):
     """histories of the expression-shape matrix (update steps) and binding-map updates of its attribute-only templates"""
     matrix = behave.get_results(res.tier, res.seed, "behave_matrix")
@@ -220,6 +260,9 @@ def run(res):
                     dec(i.split("|")[0])[:300], dec(m.split("|")[5])[:200]), {"case": c.split("\t"), "impl": i, "model": m}, no_input=True)
     n_eff, f_eff = effect_stage(res)
     found += f_eff
+    n_pd, n_pd_den, f_pd = path_denotation(res)
+    found += f_pd
+    res.notes.update({"path_denotation_cases": n_pd, "path_denotation_defined": n_pd_den})
     res.notes["paths_in_effect_checked"] = n_eff
     results = behave.get_results(res.tier, res.seed, "behave") + behave.get_results(res.tier, res.seed, "behave_matrix")
     n_paths = 0
